@@ -1049,6 +1049,78 @@ impl Drop for IoUring {
     }
 }
 
+/// Verification hook: build an [`IoUring`] over caller-supplied ring memory.
+/// Only compiled with the `verif-hooks` feature, adds nothing to normal builds.
+#[cfg(feature = "verif-hooks")]
+pub struct VerifRingParts {
+    pub fd: Fd,
+    pub flags: IoUringParamFlags,
+    pub sq_ring_size: usize,
+    pub sq_ring_ptr: usize,
+    pub sq_khead: NonNull<AtomicU32>,
+    pub sq_ktail: NonNull<AtomicU32>,
+    pub sq_kflags: NonNull<AtomicU32>,
+    pub sq_kdropped: NonNull<AtomicU32>,
+    pub sq_array: NonNull<AtomicU32>,
+    pub sq_head: u32,
+    pub sq_tail: u32,
+    pub sq_ring_mask: u32,
+    pub sq_ring_entries: u32,
+    pub sqes: NonNull<IoUringSubmissionQueueEntry>,
+    pub cq_ring_size: usize,
+    pub cq_ring_ptr: usize,
+    pub cq_khead: NonNull<AtomicU32>,
+    pub cq_ktail: NonNull<AtomicU32>,
+    pub cq_koverflow: NonNull<AtomicU32>,
+    pub cq_ring_mask: u32,
+    pub cq_ring_entries: u32,
+    pub cqes: NonNull<IoUringCompletionQueueEntry>,
+}
+
+#[cfg(feature = "verif-hooks")]
+impl IoUring {
+    /// # Safety
+    /// All pointers must be valid for the lifetime of the returned value
+    #[must_use]
+    pub unsafe fn verif_from_raw_parts(p: VerifRingParts) -> Self {
+        IoUring {
+            fd: p.fd,
+            flags: p.flags,
+            submission_queue: UringSubmissionQueue {
+                ring_size: p.sq_ring_size,
+                ring_ptr: p.sq_ring_ptr,
+                kernel_head: p.sq_khead,
+                kernel_tail: p.sq_ktail,
+                kernel_flags: p.sq_kflags,
+                kernel_dropped: p.sq_kdropped,
+                kernel_array: p.sq_array,
+                head: p.sq_head,
+                tail: p.sq_tail,
+                ring_mask: p.sq_ring_mask,
+                ring_entries: p.sq_ring_entries,
+                entries: p.sqes,
+            },
+            completion_queue: UringCompletionQueue {
+                ring_size: p.cq_ring_size,
+                ring_ptr: p.cq_ring_ptr,
+                kernel_head: p.cq_khead,
+                kernel_tail: p.cq_ktail,
+                kernel_flags: None,
+                kernel_overflow: p.cq_koverflow,
+                ring_mask: p.cq_ring_mask,
+                ring_entries: p.cq_ring_entries,
+                entries: p.cqes,
+            },
+        }
+    }
+
+    /// Local submission queue counters `(head, tail)`
+    #[must_use]
+    pub fn verif_sq_counters(&self) -> (u32, u32) {
+        (self.submission_queue.head, self.submission_queue.tail)
+    }
+}
+
 #[expect(dead_code)]
 #[derive(Debug)]
 pub(crate) struct UringSubmissionQueue {
